@@ -120,6 +120,9 @@ SUBSTR_KINDS = ["FMINDEX", "XBW"]
 EXACT_ID_KINDS = ORDERED_KINDS + ["XBW"]   # kinds whose IDs the model predicts (hash kinds join when modelled)
 
 
+SAVE_OPS = ("save", "save2", "resave", "foreign", "image", "reload")
+
+
 def dict_battery(tier, rng):
     """List of (name, S) — the dictionaries every dictionary-level property runs on."""
     thorough = tier == "thorough"
@@ -189,12 +192,16 @@ def kind_cases(tier, rng, kinds, ops_fn, phases=("built", "loaded"), many=False,
                     continue
                 for ph in phases:
                     pre = []
-                    if ph == "loaded":
-                        pre = [["reload", "own", r.range(1, 3) if kind in ("HASHHF", "HASHRPF") else 1]]
-                    elif ph == "generic":
-                        pre = [["reload", "generic", r.range(1, 3) if kind in ("HASHHF", "HASHRPF") else 1]]
+                    pops = ops
+                    if ph in ("loaded", "generic"):
+                        lopt = r.range(1, 3) if kind in ("HASHHF", "HASHRPF") else 1
+                        pre = [["reload", "own" if ph == "loaded" else "generic", lopt]]
+                        if lopt != 1:
+                            # HashBdh/HashBBdh are load-only representations (known finding K5):
+                            # saving them is exercised only by the dedicated k5 stream of C08
+                            pops = [o for o in ops if o[0] not in SAVE_OPS]
                     cid = "%s_%s_%s_%s_%s" % (name, dname, kind, "".join("%s%s" % kv for kv in sorted(pv.items())), ph[0])
-                    cases.append((cid, "dict", kind, pv, S, pre + ops))
+                    cases.append((cid, "dict", kind, pv, S, pre + pops))
     return cases
 
 
@@ -226,3 +233,313 @@ PROPS["C01"] = PropSpec(
     partial=["kinds without an exact Lean model are compared with the specification only (CSD/Spec.lean)"],
     explanation="refinement of the kind's model to Spec.locate/Spec.extract; the harness compares every answer of the real code with it",
     assumptions=["the input contract validDict (sorted, duplicate-free, bytes 0x02..0xFE)"])
+
+
+# --------------------------------------------------------------------------- C02..C16 dictionary-level streams
+def c02_ops(kind, pv, S, r):
+    qs = gen.queries_members_and_neighbours(r, S, 24)
+    op = "loc" if kind in EXACT_ID_KINDS else "rt"
+    ops = [[op, hx(q)] for q in qs]
+    ops += [["ext", i] for i in gen.bad_ids(len(S))]
+    return ops
+
+
+def c03_ops(kind, pv, S, r):
+    n = len(S)
+    ids = list(range(1, n + 1))
+    if n > 48:
+        ids = sorted(set(r.sample(ids, 46) + [1, n]))
+    ops = [["ext", i] for i in ids]
+    ops += [["loc", hx(S[i - 1])] for i in ids[:24]]
+    ks = ids[:16] + [n]
+    ops += [["lrk", k] for k in ks] + [["xrk", k] for k in ks]
+    return ops
+
+
+def c04_ops(kind, pv, S, r):
+    ps = gen.prefixes_of(r, S, 28)
+    ops = []
+    for p in ps:
+        ops.append(["pre", hx(p)])
+        if r.chance(1, 2):
+            ops.append(["xpre", hx(p)])
+    return ops
+
+
+def c05_ops(kind, pv, S, r):
+    if kind == "FMINDEX" and int(pv.get("bwt", 4)) == 0:
+        return []
+    ps = gen.substrings_of(r, S, 28)
+    ops = []
+    for p in ps:
+        ops.append(["sub", hx(p)])
+        if r.chance(1, 2):
+            ops.append(["xsub", hx(p)])
+    return ops
+
+
+def all_query_ops(kind, pv, S, r, cap=10):
+    """A mixed battery of every query the kind supports (for C06/C08/C12/C14)."""
+    ops = [["meta"]]
+    qs = gen.queries_members_and_neighbours(r, S, cap)
+    op = "loc" if kind in EXACT_ID_KINDS else "rt"
+    ops += [[op, hx(q)] for q in qs[: 2 * cap]]
+    n = len(S)
+    ids = [1, n, (n + 1) // 2, 0, n + 1]
+    ops += [["ext", i] for i in ids if kind in EXACT_ID_KINDS or i == 0 or i > n]
+    ops.append(["exts"])
+    if kind in PREFIX_KINDS:
+        for p in gen.prefixes_of(r, S, cap)[:cap]:
+            ops.append(["pre", hx(p)])
+            ops.append(["xpre", hx(p)])
+    if kind in SUBSTR_KINDS and not (kind == "FMINDEX" and int(pv.get("bwt", 4)) == 0):
+        for p in gen.substrings_of(r, S, cap)[:cap]:
+            ops.append(["sub", hx(p)])
+            ops.append(["xsub", hx(p)])
+    if kind in ORDERED_KINDS:
+        ops += [["lrk", 1], ["xrk", 1], ["xrk", n]]
+    if kind != "XBW":
+        ops += [["tabs"], ["tabx"]]
+    if kind in ORDERED_KINDS:
+        ops.append(["tab"])
+    return ops
+
+
+def c06_ops(kind, pv, S, r):
+    return all_query_ops(kind, pv, S, r)
+
+
+def c06_streams(tier, rng):
+    cases = kind_cases(tier, rng, ALL_KINDS, c06_ops, phases=("loaded", "generic"))
+    # images are self-delimiting: the `reload` op appends a trailer and checks tellg
+    return [StreamSet("persist", "asan", cases)]
+
+
+def c08_ops(kind, pv, S, r):
+    q = all_query_ops(kind, pv, S, r, cap=4)
+    return [["save2"]] + q[:12] + [["save2"], ["resave", 1], ["save"]] + q[:12] + [["save2"]]
+
+
+def c08_streams(tier, rng):
+    main = kind_cases(tier, rng, ALL_KINDS, c08_ops)
+    # K5: objects loaded with hash representation 2/3 cannot be saved (recorded finding)
+    k5 = []
+    for kind in ("HASHHF", "HASHRPF"):
+        for lopt in (2, 3):
+            S = gen.us_states()[:9]
+            k5.append(("k5_%s_%d" % (kind, lopt), "dict", kind, {"ov": 25}, S, [["reload", "own", lopt], ["rt", hx(S[0])], ["save2"]]))
+            k5.append(("k5r_%s_%d" % (kind, lopt), "dict", kind, {"ov": 25}, S, [["resave", lopt]]))
+    return [StreamSet("saves", "asan", main), StreamSet("k5", "asan", k5)]
+
+
+def c13_ops(kind, pv, S, r):
+    if kind == "XBW":
+        return [["tab"]]
+    ops = [["tabx"], ["tabs"], ["meta"]]
+    if kind in ORDERED_KINDS:
+        ops.append(["tab"])
+    if kind in PREFIX_KINDS:
+        for p in gen.prefixes_of(r, S, 10)[:10]:
+            ops += [["xpre", hx(p)], ["pre", hx(p)]]
+    if kind in SUBSTR_KINDS:
+        for p in gen.substrings_of(r, S, 6)[:6]:
+            ops += [["xsub", hx(p)], ["sub", hx(p)]]
+    return ops
+
+
+def c15_ops(kind, pv, S, r):
+    return [["meta"], ["exts"]]
+
+
+def c16_ops(kind, pv, S, r):
+    ops = []
+    pats = gen.prefixes_of(r, S, 4)[:4] + gen.queries_members_and_neighbours(r, S, 3)[:4]
+    if kind in HASH_KINDS:
+        for p in pats:
+            ops += [["pre", hx(p)], ["xpre", hx(p)], ["sub", hx(p)], ["xsub", hx(p)]]
+        ops += [["lrk", 1], ["xrk", 1], ["lrk", len(S)], ["xrk", 0]]
+    elif kind in FC_KINDS + ["RPDAC"] or (kind == "FMINDEX" and int(pv.get("bwt", 4)) == 0):
+        for p in pats:
+            ops += [["sub", hx(p)], ["xsub", hx(p)]]
+    elif kind == "XBW":
+        ops += [["tab"]]
+    else:
+        return []
+    # the dictionary stays fully usable
+    op = "loc" if kind in EXACT_ID_KINDS else "rt"
+    ops += [[op, hx(s)] for s in S[:6]] + [["exts"]]
+    # a kind's loader refuses another kind's image
+    others = [k for k in ALL_KINDS if k != kind]
+    ops += [["foreign", k] for k in r.sample(others, 4)]
+    return ops
+
+
+def simple_dict_prop(ops_fn, kinds, name, phases=("built", "loaded"), many=False):
+    def f(tier, rng):
+        return [StreamSet(name, "asan", kind_cases(tier, rng, kinds, ops_fn, phases=phases, many=many))]
+    return f
+
+
+_PART = ["kinds without an exact Lean model are compared with the specification only (CSD/Spec.lean)"]
+_RULE = ("battery (G1 small-scope subsets over {a,b}, G2 structured random with deep lcp chains, G3 proof-directed boundaries) × kinds × "
+         "parameter vectors × {built, reloaded}; %s; non-trivial = at least 2 strings; distinct by hash of (kind, params, strings, ops)")
+_ASSUME = ["the input contract validDict (sorted, duplicate-free, bytes 0x02..0xFE)"]
+
+PROPS["C02"] = PropSpec(simple_dict_prop(c02_ops, ALL_KINDS, "absent"),
+                        _RULE % "queries: members, proper prefixes, one-byte extensions, ±1 on the last byte, below first / above last, bytes absent from the dictionary; IDs 0, n+1, 2^32±1, 2^64−1",
+                        _PART, "the refinement theorems read at non-members; ASan monitors the reads of the real code", _ASSUME)
+def c03_streams(tier, rng):
+    main = kind_cases(tier, rng, ORDERED_KINDS, c03_ops, name="d")
+    # XBW answers rank queries although its IDs are co-lexicographic (recorded finding K6)
+    k6 = kind_cases(tier, rng, ["XBW"], lambda k, pv, S, r: [["lrk", 1], ["xrk", 1], ["lrk", len(S)], ["xrk", len(S)], ["xrk", (len(S) + 1) // 2]],
+                    battery=small_battery(tier, rng, 6), name="x")
+    return [StreamSet("order", "asan", main), StreamSet("xbwrank", "asan", k6)]
+
+
+PROPS["C03"] = PropSpec(c03_streams,
+                        _RULE % "extract(i) for IDs, locate of members, locateRank/extractRank for ranks",
+                        _PART, "IDs of order-preserving kinds are lexicographic ranks (corollary of the refinement theorems)", _ASSUME)
+PROPS["C04"] = PropSpec(simple_dict_prop(c04_ops, PREFIX_KINDS, "prefix"),
+                        _RULE % "patterns: prefixes of members, one-byte extensions, members, longer than every member, below/above all members",
+                        _PART, "prefix search equals the contiguous specification range", _ASSUME)
+PROPS["C05"] = PropSpec(simple_dict_prop(c05_ops, SUBSTR_KINDS, "substr"),
+                        _RULE % "patterns: substrings of length 1..3 of members, whole members, straddling two members, absent bytes",
+                        ["FM-index backward search and XBW navigation are not modelled (D3): correspondence with the specification only"],
+                        "glue (duplicate-skipping iterator, position→ID map) is modelled; the index algorithms are compared with Spec.substrIds", _ASSUME)
+PROPS["C06"] = PropSpec(c06_streams,
+                        _RULE % "every query of C01–C05/C13/C15 on objects reloaded through the kind's own loader and through the generic loader, with a trailer after the image (tellg must stop at the image end)",
+                        _PART, "field-sequence theorems over generated fragments + byte-level serialisers of the exact models", _ASSUME)
+PROPS["C08"] = PropSpec(c08_streams,
+                        _RULE % "save twice, queries, save twice, save→load→save byte comparison, queries again",
+                        _PART, "save is a function of the model state; re-save equality for the exact models", _ASSUME)
+PROPS["C13"] = PropSpec(simple_dict_prop(c13_ops, ALL_KINDS, "iters"),
+                        _RULE % "extractTable vs extract(k), sorted table, string/ID iterators of prefix and substring searches, NUL termination and reported lengths",
+                        _PART, "iterator state machines drain to the specification lists", _ASSUME)
+PROPS["C15"] = PropSpec(simple_dict_prop(c15_ops, ALL_KINDS, "meta"),
+                        _RULE % "numElements and maxLength on built and reloaded objects",
+                        _PART, "counter folds of the constructor models", _ASSUME)
+PROPS["C16"] = PropSpec(simple_dict_prop(c16_ops, ALL_KINDS, "failsafe"),
+                        _RULE % "every unsupported operation of the kind with well-formed arguments, then ordinary queries on the same object; four foreign loaders per image",
+                        _PART, "dispatch / loader-guard / stub theorems over generated fragments", _ASSUME)
+
+
+# --------------------------------------------------------------------------- C12 / C14 / C07
+def small_battery(tier, rng, k):
+    b = dict_battery(tier, rng)
+    keep = [x for x in b if x[0].startswith("g3")]
+    rest = [x for x in b if not x[0].startswith("g3")]
+    return keep + rng.fork("small").sample(rest, min(k, len(rest)))
+
+
+def c12_ops(kind, pv, S, r):
+    # the same queries for every parameter vector of a dictionary: the rng is re-seeded per dictionary
+    r2 = gen.Rng(len(S) * 7919 + sum(S[0]))
+    return all_query_ops(kind, pv, S, r2, cap=8)
+
+
+def c12_streams(tier, rng):
+    thorough = tier == "thorough"
+    bat = small_battery(tier, rng, 60 if thorough else 14)
+    cases = kind_cases(tier, rng, ALL_KINDS, c12_ops, phases=("built", "loaded"), many=True, battery=bat, name="p")
+    # bucket sizes below 2 are clamped to 2
+    clamp = []
+    for dname, S in bat[:10]:
+        for kind in FC_KINDS:
+            for b in (0, 1):
+                clamp.append(("clamp_%s_%s_b%d" % (dname, kind, b), "dict", kind, {"b": b}, S,
+                              c12_ops(kind, {"b": b}, S, rng)))
+    return [StreamSet("params", "asan", cases), StreamSet("clamp", "asan", clamp)]
+
+
+def history_ops(kind, pv, S, r, length):
+    pool = all_query_ops(kind, pv, S, r, cap=8)
+    pool = [o for o in pool if o[0] not in ("tabx",)]
+    # failed lookups and unsupported operations are part of every history
+    pool += [["loc" if kind in EXACT_ID_KINDS else "rt", hx(S[0] + b"\x02")], ["ext", 0], ["sub", hx(S[0][:1])], ["pre", hx(S[-1][:1])],
+             ["lrk", 1], ["xrk", len(S) + 1], ["save2"]]
+    ops = []
+    openit = []
+    cnt = 0
+    pats = gen.prefixes_of(r, S, 6)[:6]
+    subs = gen.substrings_of(r, S, 4)[:4]
+    while len(ops) < length:
+        c = r.below(10)
+        if kind == "XBW":
+            c = 0   # XBW's iteration order is unspecified: its iterators are drained whole by pre/sub/xpre/xsub
+        if c < 5:
+            ops.append(list(r.choice(pool)))
+        elif c < 7 and len(openit) < 4:
+            name = "i%d" % cnt
+            cnt += 1
+            what = r.choice(["pre", "xpre", "tab"] + (["sub", "xsub"] if kind in SUBSTR_KINDS else []))
+            if what == "tab" and kind not in ORDERED_KINDS:
+                what = "pre"
+            pat = r.choice(subs if what in ("sub", "xsub") else pats)
+            ops.append(["iopen", name, what, hx(pat)])
+            openit.append(name)
+        elif c < 9 and openit:
+            ops.append(["inext", r.choice(openit), r.range(1, 3)])
+        elif openit:
+            name = r.choice(openit)
+            openit.remove(name)
+            ops.append(["iclose", name])
+    for name in openit:
+        ops.append(["inext", name, 100000])
+        ops.append(["iclose", name])
+    return ops
+
+
+def c14_streams(tier, rng):
+    thorough = tier == "thorough"
+    bat = small_battery(tier, rng, 50 if thorough else 12)
+    L = 200 if thorough else 50
+
+    def fn(kind, pv, S, r):
+        return history_ops(kind, pv, S, r, L)
+    cases = kind_cases(tier, rng, ALL_KINDS, fn, battery=bat, name="h")
+    # the same history replayed in a different order must give the same per-op answers:
+    # both orders are compared with the (history-free) model, so agreement is implied
+    cases2 = []
+    for c in cases[:: 3]:
+        ops = list(c[5])
+        head = [o for o in ops if o[0] == "reload"]
+        body = [o for o in ops if o[0] not in ("reload", "iopen", "inext", "iclose")]
+        rng.fork(c[0]).shuffle(body)
+        cases2.append((c[0] + "_perm", c[1], c[2], c[3], c[4], head + body))
+    return [StreamSet("histories", "asan", cases), StreamSet("reordered", "asan", cases2)]
+
+
+def c07_streams(tier, rng):
+    thorough = tier == "thorough"
+    bat = small_battery(tier, rng, 40 if thorough else 10)
+    # long strings and many strings: every internal buffer is reallocated
+    r = rng.fork("c07")
+    bat.append(("long2000", sorted(set(bytes(r.choice(gen.ALPHABETS[26]) for _ in range(r.range(1500, 2500))) for _ in range(5)))))
+    bat.append(("many", gen.g2_dict(r, 3000 if thorough else 1200, 26, "mixed")))
+
+    def fn(kind, pv, S, r):
+        if len(S) > 500:
+            return all_query_ops(kind, pv, S, r, cap=6) + [["save2"], ["resave", 1]]
+        return history_ops(kind, pv, S, r, 40) + [["save2"], ["resave", 1]]
+    out = [StreamSet("lifecycle", "asan", kind_cases(tier, rng, ALL_KINDS, fn, battery=bat, name="m"), timeout=60)]
+    # growth paths: MEMALLOC overridden through the hook so that every doubling is taken with small inputs
+    growk = FC_KINDS + ["HASHHF"]
+    for mem in ((1, 2, 7, 64) if thorough else (1, 7)):
+        gb = [x for x in bat if x[0] not in ("many",)]
+        cs = kind_cases(tier, rng.fork("mem%d" % mem), growk, lambda k, pv, S, r: all_query_ops(k, pv, S, r, cap=4),
+                        phases=("built",), battery=gb, name="g%d" % mem)
+        out.append(StreamSet("memalloc%d" % mem, "asan", cs, extra_defs=("-DLIBCSD_VERIF_MEMALLOC=%d" % mem,), tag="_mem%d" % mem, timeout=60))
+    return out
+
+
+PROPS["C12"] = PropSpec(c12_streams,
+                        _RULE % "every legal parameter vector of each kind (bucket sizes 2..n+1, overheads 0..100, FM bitmap kind × sampling × BWT step, cut × threads, load option 1..3) on the same dictionary and the same queries; bucket sizes 0 and 1",
+                        _PART, "answers equal the parameter-free specification for every parameter vector, hence equal each other", _ASSUME)
+PROPS["C14"] = PropSpec(c14_streams,
+                        _RULE % "random call histories (queries, failed lookups, unsupported operations, save, up to 4 interleaved open iterators), and the same queries in a shuffled order; the pattern buffer is checked after every call",
+                        _PART + ["immutability of the C++ objects is observed, not proved"],
+                        "the model answers each call from the dictionary alone (history-free); the pattern-buffer discipline of RePair is modelled", _ASSUME)
+PROPS["C07"] = PropSpec(c07_streams,
+                        _RULE % "life-cycle histories build → queries → save → load → queries → destroy under ASan+UBSan; 1200+ strings; 2000-byte strings; FC kinds rebuilt with MEMALLOC 1/7 (thorough: 1/2/7/64)",
+                        ["memory safety of the C++ runtime is monitored by sanitizers on the runs, the theorems cover the index arithmetic of the modelled buffers only"],
+                        "index-bounds theorems for the modelled buffers; sanitizers monitor every correspondence run", _ASSUME)
